@@ -479,8 +479,11 @@ def rule_h4(ctx: Ctx, ex: Extractor, descr: Dict[str, Handler]) -> None:
                         ctx.violation("C14-H4", target, node if hasattr(node, "lineno") else target.node, f"letter {letter}: {axis} = {co!r} may be zero under its case condition; the decoder rejects a pin with a zero coordinate, so an enumerated word can fail to decode")
     # ---- the origin stays in the list until the epilogue
     dec = repo.need_method("PinWords", "pinword_to_perm")
+    import re as _re
+
     init = [st for st in dec.body if isinstance(st, ast.Assign) and isinstance(st.value, ast.List) and len(st.value.elts) == 1]
-    if not init or unparse(init[0].value).replace(" ", "") not in ("[(pwu.rzero(),pwu.rzero())]", "[(0,0)]", "[(Fraction(0,1),Fraction(0,1))]"):
+    origin_txt = unparse(init[0].value).replace(" ", "") if init else ""
+    if not init or not (_re.fullmatch(r"\[\((\w+)\.rzero\(\),\1\.rzero\(\)\)\]", origin_txt) or origin_txt in ("[(0,0)]", "[(Fraction(0,1),Fraction(0,1))]")):
         raise AnalysisError(f"{dec.where}: pin list is not initialised with the origin only")
     lst = unparse(init[0].targets[0])
     rz = repo.need_method("PinWordUtil", "rzero")
@@ -629,7 +632,16 @@ def check_p2w(ctx: Ctx, f: FuncInfo) -> None:
         ctx.violation("C14-T1", f, lp, f"inversion step is `{unparse(lp.body[0])[:60]}`; expected `{res}[perm].add(word)` for every pair")
 
 
+GENERIC_FILES = ['permuta/permutils/pin_words.py', 'permuta/permutils/pinword_util.py']
+
+
 def variants():
+    from ..selftest import generic_silent
+
+    return _variants() + generic_silent(GENERIC_FILES)
+
+
+def _variants():
     from ..selftest import V, insert_stmt, reformat_only, rename_local, replace_expr, replace_stmt
 
     PU, PW = "permuta/permutils/pinword_util.py", "permuta/permutils/pin_words.py"
